@@ -428,6 +428,11 @@ def viewOp (cls : PyCls) (s : Shape) (op : ViewOp) : Except SErr Res :=
   | .reshape t =>
     if cls.isQuantity then quantityReshape cls s (if t = [] then .emptyOrNone else .dims t)
     else match reshape s t with | .error e => .error e | .ok s' => .ok ⟨cls, s'⟩
+  | .expandDims k =>
+    -- `np.expand_dims` is `a.reshape(shape)`: a quantity goes through its `reshape` override
+    match expandDims s k with
+    | .error e => .error e
+    | .ok s' => .ok ⟨if cls.isQuantity then .uarray else cls, s'⟩
   | op => match viewShape s op with | .error e => .error e | .ok s' => .ok ⟨cls, s'⟩
 
 /-! ### accessors: view or copy -/
